@@ -794,7 +794,7 @@ func (c *Ctx) bigSetStringSym(z Value, s *StrVal, base int) Value {
 }
 
 // parseIntModel models strconv.ParseInt(s, base, 64) for base != 0 on symbolic digits.
-func (c *Ctx) parseIntModel(s *StrVal, base int) Value {
+func (c *Ctx) parseIntModel(s *StrVal, base int, bits int) Value {
 	fail := func(msg string) Value {
 		return TupleVal{c.goInt(0), c.mkError(c.str("strconv.ParseInt: " + msg))}
 	}
@@ -817,8 +817,8 @@ func (c *Ctx) parseIntModel(s *StrVal, base int) Value {
 		v = c.bigNeg(v)
 	}
 	var fits *Term
-	lo := c.bigConst(new(big.Int).Neg(pow2(63)))
-	hi := c.bigConst(new(big.Int).Sub(pow2(63), big.NewInt(1)))
+	lo := c.bigConst(new(big.Int).Neg(pow2(bits - 1)))
+	hi := c.bigConst(new(big.Int).Sub(pow2(bits-1), big.NewInt(1)))
 	if c.IntMode {
 		fits = And(ILe(lo, v), ILe(v, hi))
 	} else {
@@ -1244,10 +1244,53 @@ func registerLibModels() {
 			}
 			return TupleVal{c.goInt(v), Iface{}}
 		}
-		if !okb || !okc || base < 2 || base > 36 || bits != 64 {
-			c.unsupported("strconv.ParseInt with symbolic digits needs constant base in 2..36 and bitSize 64")
+		if bits == 0 {
+			bits = 64
 		}
-		return c.parseIntModel(s, int(base))
+		if !okb || !okc || base < 2 || base > 36 || bits < 8 || bits > 64 {
+			c.unsupported("strconv.ParseInt with symbolic digits needs constant base in 2..36 and bitSize 8..64")
+		}
+		return c.parseIntModel(s, int(base), int(bits))
+	}
+	m["strconv.ParseUint"] = func(c *Ctx, fn *ssa.Function, a []Value) Value {
+		s := a[0].(*StrVal)
+		base, okb := c.constInt(a[1].(*Term), true)
+		bits, okc := c.constInt(a[2].(*Term), true)
+		if cs, ok := s.concrete(); ok && okb && okc {
+			v, err := strconv.ParseUint(cs, int(base), int(bits))
+			r := c.mkInt(new(big.Int).SetUint64(v), 64, false)
+			if err != nil {
+				return TupleVal{r, c.mkError(c.str(err.Error()))}
+			}
+			return TupleVal{r, Iface{}}
+		}
+		if bits == 0 {
+			bits = 64
+		}
+		if !okb || !okc || base < 2 || base > 36 || bits < 8 || bits > 64 {
+			c.unsupported("strconv.ParseUint with symbolic digits needs constant base in 2..36 and bitSize 8..64")
+		}
+		fail := func(msg string) Value {
+			return TupleVal{c.mkInt64(0, 64, false), c.mkError(c.str("strconv.ParseUint: " + msg))}
+		}
+		v, valid := c.parseDigitsSym(s.B, int(base))
+		if !c.decide(valid) {
+			return fail("invalid syntax")
+		}
+		hi := c.bigConst(new(big.Int).Sub(pow2(int(bits)), big.NewInt(1)))
+		var fits *Term
+		if c.IntMode {
+			fits = ILe(v, hi)
+		} else {
+			fits = BVSle(v, hi)
+		}
+		if !c.decide(fits) {
+			return fail("value out of range")
+		}
+		if c.IntMode {
+			return TupleVal{v, Iface{}}
+		}
+		return TupleVal{Extract(63, 0, v), Iface{}}
 	}
 	m["strconv.IsPrint"] = func(c *Ctx, fn *ssa.Function, a []Value) Value {
 		r := a[0].(*Term)
